@@ -17,7 +17,14 @@
          inlined, and the saver's names (len) are renamed to the constructor's (nodesCount)  (adapter_XBW_save).
      T5  StringDictionaryHASHRPDACBlocks: the loader uses locals (_maxlength, parts_sz ...) and ONE stored count for three
          loops whose savers iterate over three vectors: equal only under the class invariant
-         |cut_samples| = |starting_indexes| = |parts| (adapter_Blocks_load, adapter_Blocks_save).  Not well-formed without it => schema_fallback. *)
+         |cut_samples| = |starting_indexes| = |parts| (adapter_Blocks_load, adapter_Blocks_save).  Not well-formed without it => schema_fallback.
+
+   Normalisations done by the TRANSLATOR before the data reaches this file (notes/serial2.md), so that behaviour-preserving
+   refactorings of the source regenerate the very same Schema_gen.v: helpers of the same class / file that receive the
+   stream are inlined (their statements are items of the caller; what is not understood in them is still Opaque);
+   stream-free helpers in count expressions are expanded symbolically (text AND cexp, so no obligation below depends on a
+   helper's name); a load-side local that only carries a read value into one member is named as that member; the local
+   that receives the tag word of a tagged class is always named "type" (T1 does not depend on it either way). *)
 From Coq Require Import List NArith String Bool Lia.
 From LibCSD Require Import Base Bytes SerialDefs SerialProofs.
 From LibCSD.gen Require Import Schema_gen.
